@@ -1,6 +1,6 @@
 """C09 SM9 pairing groups: MC_C09 (dlog algebra over registers, exact G1/G2 via Bn.tla, standard anchor for GT, strict decoders) + replay."""
 import os
-from .. import core, cfgs
+from .. import core, cfgs, fel
 
 S = core.tla_set
 
@@ -32,8 +32,12 @@ def run(ctx):
         job("exact%d" % i, ScalarClasses=S((base if i == 0 else []) + wins[i::nsh] + ([rnd[0], rnd[2]] if i == 1 else [])), MulClasses=S([2, 3] if i < 2 else [2]),
             MaxOps=2 if i < 2 else 1, Exact="TRUE")
     job("dec", Mode='"dec"', DecPoints=S(range(1, 9) if quick else range(1, 33)))
+    # the limb-level arithmetic of F_p and F_p^2 underneath (assembly or generic gfp*, gfP2) on limb-structured residues
+    feljobs, felouts = fel.jobs(ctx, ["gfp", "gfp2"])
+    jobs += feljobs
     ctx.tlc_many(jobs, parallel=6)
     core.cat_files(outs, out)
+    fel.replay(ctx, felouts, cfgs.K_EC)
     ctx.replay_all(out, cfgs.K_EC)
     ctx.binding_guard(out, cfgs.K_EC[0])
     ctx.sample_traces(out)
@@ -47,4 +51,4 @@ def run(ctx):
     ctx.assumptions += ["GT values are not recomputed by the specification (no F_p^12 tower / Miller loop in TLA+): GT is decided relationally (dlog algebra, equality partition, generator^dlog through the library's own base exponentiation) and anchored by the standard's g = e(P1,[ks]P2) of GM/T 0044.5 A.2; a consistent error in every GT path that preserved all relations and that constant would escape",
                         "G1 and G2 results are exact (affine big-integer arithmetic over F_p and F_p^2 in Bn.tla)",
                         "decoder inputs: canonical, coordinate+p, coordinate=p, off-curve, infinity, short, trailing, all-ones for 8 (quick) / 32 (thorough) points; G2 compressed decoding and G2 subgroup membership are not modelled"]
-    return ctx.finish(rule="one case per TLC transition of MC_C09: programs of <=3-4 group operations over registers (base, mul, add, neg, double, pair) with scalar classes 0,1,2,n-1,n,n+1,2^256-1, window one-hots, random; bilinearity macro programs; decoder cases; each replayed under 4 field-arithmetic backends; distinct = distinct programs / decoder cases")
+    return ctx.finish(rule="one case per TLC transition of MC_C09: programs of <=3-4 group operations over registers (base, mul, add, neg, double, pair) with scalar classes 0,1,2,n-1,n,n+1,2^256-1, window one-hots, random; bilinearity macro programs; decoder cases; each replayed under 5 field-arithmetic backends; plus one case per row of MC_Fel (gfp / gfp2 primitive, left operand, all right operands) on the limb-level primitives; distinct = distinct programs / decoder cases / rows")
